@@ -74,7 +74,7 @@ func c13run(r *kernel.Run, seed uint64) {
 	s.w.EagerDag = r.Choose(2) == 0
 	nmeta := r.Choose(7)
 	nmsg := r.Choose(7)
-	plan := r.Choose(3) // 0 replica online entry by entry, 1 one batch afterwards, 2 mixed (joins in the middle)
+	plan := r.Choose(4) // 0 replica online entry by entry, 1 one batch afterwards, 2 mixed (joins in the middle), 3 online, then partitioned, then the rest in one batch
 	for i := 0; i < 2; i++ {
 		if _, err := s.addNode(fmt.Sprintf("n%d", i), 100); err != nil {
 			r.Infra("node: %v", err)
@@ -107,15 +107,71 @@ func c13run(r *kernel.Run, seed uint64) {
 		return
 	}
 	r.Logf("listing: metadata=%d messages=%d plan=%d eagerdag=%v", nmeta, nmsg, plan, s.w.EagerDag)
-	if plan == 0 {
+	if plan == 0 || plan == 3 {
 		s.connectAll()
+	}
+	cut := -1
+	if plan == 3 {
+		cut = 1 + r.Choose(4)
 	}
 	var metaOrder, msgOrder []string
 	total := nmeta + nmsg
 	mi, gi := 0, 0
+	// midway listings: a store may cache or index what it handed out, later arrivals must still be listed in log order
+	midList := func(where string) bool {
+		for _, n := range s.nodes {
+			gc := n.gcs[gid]
+			for _, meta := range []bool{true, false} {
+				held := map[string]bool{}
+				for _, c := range logCIDs(gc, meta) {
+					held[c] = true
+				}
+				order := metaOrder
+				if !meta {
+					order = msgOrder
+				}
+				var want []string
+				for _, c := range order {
+					if held[c] {
+						want = append(want, c)
+					}
+				}
+				var got []string
+				if meta {
+					ch, err := gc.MetadataStore().ListEvents(ctx, nil, nil, false)
+					if err != nil {
+						r.Violate("listing", "listing-failed", "%s: %v", where, err)
+						return false
+					}
+					got = c13collectMeta(ch)
+				} else {
+					ch, err := gc.MessageStore().ListEvents(ctx, nil, nil, false)
+					if err != nil {
+						r.Violate("listing", "listing-failed", "%s: %v", where, err)
+						return false
+					}
+					got = c13collectMsg(ch)
+				}
+				if !sameStrings(got, want) {
+					r.Violate("listing", "wrong-order", "%s on %s (%s store): a full listing of the %d entries held does not follow log order", where, n.name, map[bool]string{true: "metadata", false: "message"}[meta], len(want))
+					return false
+				}
+			}
+		}
+		r.Probe("midway_listing")
+		return true
+	}
 	for k := 0; k < total; k++ {
 		if plan == 2 && k == total/2 {
 			s.connectAll()
+		}
+		if plan == 3 && k == cut {
+			s.drain(false, 2000)
+			if !midList("before the partition") {
+				return
+			}
+			s.w.Disconnect(0, 1)
+			r.Fault("partition")
 		}
 		if (s.r.Choose(2) == 0 && mi < nmeta) || gi >= nmsg {
 			op, err := w.gcs[gid].MetadataStore().SendAppMetadata(ctx, []byte(fmt.Sprintf("meta-%d", mi)))
@@ -134,6 +190,12 @@ func c13run(r *kernel.Run, seed uint64) {
 			msgOrder = append(msgOrder, op.GetEntry().GetHash().String())
 			gi++
 		}
+		if plan != 1 && s.r.Choose(4) == 3 {
+			s.wait()
+			if !midList("midway") {
+				return
+			}
+		}
 		if plan != 1 {
 			for k := s.r.Choose(5); k > 0; k-- {
 				if !s.netStep(false) {
@@ -151,6 +213,8 @@ func c13run(r *kernel.Run, seed uint64) {
 		r.Nontrivial()
 	}
 	switch plan {
+	case 3:
+		r.Fault("delivery_online_then_batch_after_partition")
 	case 1:
 		r.Fault("delivery_one_batch")
 	case 2:
